@@ -89,6 +89,11 @@ func (p *Proposal) ValidateBasic() error {
 	if !p.POLBlockID.IsComplete() {
 		return fmt.Errorf("expected a complete, non-empty BlockID, got: %v", p.POLBlockID)
 	}
+	// The receiver allocates one slot per announced part (PartSet, peer bit array)
+	// before it has seen a single part: no valid block has more parts than this.
+	if p.POLBlockID.PartsHeader.Total > MaxBlockPartsCount {
+		return fmt.Errorf("too many block parts: %d, max: %d", p.POLBlockID.PartsHeader.Total, MaxBlockPartsCount)
+	}
 
 	// NOTE: Timestamp validation is subtle and handled elsewhere.
 
